@@ -160,10 +160,17 @@ Proof. vm_compute. repeat split; reflexivity. Qed.
    translator also requires the per-call AsyncWriteCounter, the `else if write_counter.num_bytes_written() > 0
    { self.shutdown_write() }` branch, the returned result and the two statements of shutdown_write), interpreted by
    Tie/WriteResponseTie.v, is the connection model the theorems above are about -- for every connection, writer,
-   body source and response. *)
+   body source and response; and the `match result { .. }` of handle_http_conn, as translated (src_conn_loop), is the
+   model's conn_after_result. *)
 Theorem c08_write_response_is_the_source :
   forall reason ct_text c r, eval_write_response reason ct_text c r = conn_write_response reason ct_text c r.
 Proof. exact write_response_tie. Qed.
+Theorem c08_error_arm_is_the_source :
+  forall reason ct_text c res r500,
+    wf_eval_after_result reason ct_text c res r500 = conn_after_result reason ct_text c res r500.
+Proof. exact after_result_tie. Qed.
+Theorem c08_loop_translation_complete : src_problems_conn_loop = 0%nat.
+Proof. reflexivity. Qed.
 Theorem c08_translation_complete : src_problems_write_response = 0%nat.
 Proof. exact write_response_translated. Qed.
 
@@ -179,3 +186,5 @@ Print Assumptions c08_oracle_conn_any_prior.
 Print Assumptions c08_oracle_session_sound.
 Print Assumptions c08_write_response_is_the_source.
 Print Assumptions c08_translation_complete.
+Print Assumptions c08_error_arm_is_the_source.
+Print Assumptions c08_loop_translation_complete.
